@@ -100,7 +100,8 @@ pub struct Sess {
     pub keys: SessionKeys,
     pub vd_client: Vec<u8>,   // verify_data the server would expect *now* for "client finished"
     pub vd_server: Vec<u8>,   // verify_data the client would expect now for "server finished"
-    pub genuine_finished: Vec<u8>, // body of the peer's genuine Finished
+    /// body of a well-formed Certificate message carrying some other (attacker's) certificate
+    pub other_cert_body: Vec<u8>,
 }
 
 impl Sess {
@@ -110,6 +111,7 @@ impl Sess {
         match ct {
             20 => vec![1],
             21 => match var % 4 { 0 => vec![1, 0], 1 => vec![2, 40], 2 => vec![2, 0], _ => vec![1] },
+            22 if var == 10 => hs_msg(11, next_seq, &self.other_cert_body),   // decodable Certificate, wrong identity (clear-text injections only)
             22 => match var % 10 {
                 0 => hs_msg(20, next_seq, &[0xAB; 12]),                         // Finished, expected seq, wrong verify_data
                 1 => hs_msg(20, next_seq - 1, &[0xAB; 12]),                     // duplicate seq
@@ -230,7 +232,8 @@ pub async fn run_session(target_is_client: bool, script: &[(Inj, bool)]) -> Opti
     let sess = Sess { target_is_client, keys: keys.clone(),
         vd_client: verify_data(&keys.master_secret, true, &t_all),
         vd_server: verify_data(&keys.master_secret, false, &t_cf),
-        genuine_finished: vec![] };
+        other_cert_body: { let der = rustrtc::transports::dtls::generate_certificate().unwrap().certificate[0].clone();
+            let mut b = ((der.len() + 3) as u32).to_be_bytes()[1..].to_vec(); b.extend_from_slice(&(der.len() as u32).to_be_bytes()[1..]); b.extend_from_slice(&der); b } };
     let third: SocketAddr = "127.0.0.9:4444".parse().unwrap();
     let genuine = target.sink_addr;
     let mut input = format!("init,{},{},{},{},{},{},{},{},{},{}", if target_is_client { "c" } else { "s" },
@@ -314,7 +317,7 @@ fn gen_inj(rng: &mut Rng, depth: u8) -> Inj {
     let cts = [20u8, 21, 22, 23, 24];
     let epochs = [0u16, 1, 2, 65535];
     match rng.below(100) {
-        0..=24 => Inj::Plain { ct: *rng.pick(&cts), epoch: *rng.pick(&[0u16, 0, 0, 1, 2]), var: rng.below(10) as u8 },
+        0..=24 => Inj::Plain { ct: *rng.pick(&cts), epoch: *rng.pick(&[0u16, 0, 0, 1, 2]), var: rng.below(11) as u8 },
         25..=44 => Inj::Sealed { ct: *rng.pick(&cts), epoch: *rng.pick(&[1u16, 1, 1, 2, 0, 65535]), var: rng.below(10) as u8,
                                   seq: *rng.pick(&[0u64, 1, 2, 500, (1 << 48) - 1]) },
         45..=54 => Inj::WrongKey { ct: *rng.pick(&cts), epoch: *rng.pick(&epochs[1..]), var: rng.below(10) as u8, which: rng.below(2) as u8 },
@@ -347,6 +350,7 @@ fn directed() -> Vec<Vec<(Inj, bool)>> {
         v.push(vec![(Inj::Plain { ct: 21, epoch: 0, var: 0 }, third), (Inj::Captured { len: 16, mutation: Mut::None }, false)]);
         v.push(vec![(Inj::Plain { ct: 22, epoch: 0, var: 0 }, third), (Inj::Captured { len: 16, mutation: Mut::None }, false)]);
         v.push(vec![(Inj::Plain { ct: 22, epoch: 0, var: 3 }, third), (Inj::Plain { ct: 22, epoch: 0, var: 5 }, third)]);
+        v.push(vec![(Inj::Plain { ct: 22, epoch: 0, var: 10 }, third), (Inj::Captured { len: 16, mutation: Mut::None }, false)]);
         for ct in [20u8, 21, 22, 23, 24] { for ep in [0u16, 1, 2] {
             v.push(vec![(Inj::Plain { ct, epoch: ep, var: 0 }, third), (Inj::Sealed { ct, epoch: ep.max(1), var: 0, seq: 40 }, third),
                         (Inj::WrongKey { ct, epoch: ep.max(1), var: 0, which: 0 }, third)]);
@@ -359,6 +363,8 @@ fn directed() -> Vec<Vec<(Inj, bool)>> {
     // send side: boundary sizes, then close: the alert must not reuse a sequence number
     v.push(vec![(Inj::Send { len: 1 }, false), (Inj::Close, false)]);
     v.push(vec![(Inj::Close, false)]);
+    // send() keeps working after close(): the alert must have consumed its sequence number
+    v.push(vec![(Inj::Send { len: 5 }, false), (Inj::Close, false), (Inj::Send { len: 5 }, false), (Inj::Send { len: 1300 }, false)]);
     v.push(vec![(Inj::Send { len: 1200 }, false), (Inj::Send { len: 1201 }, false), (Inj::Send { len: 0 }, false), (Inj::Send { len: 5000 }, false), (Inj::Close, false)]);
     // a failed record stops the datagram: [garbage sealed, genuine] vs [genuine, plaintext]
     v.push(vec![(Inj::Multi(Box::new(Inj::WrongKey { ct: 23, epoch: 1, var: 0, which: 1 }), Box::new(Inj::Captured { len: 16, mutation: Mut::None })), false)]);
